@@ -161,3 +161,55 @@ Definition run_event (t : table) (e : event) (ret : N -> bool) : table * list N 
   let inv := dispatch t e in
   let (t', closed) := settle t inv ret in
   (t', List.map (fun x => hv_id (snd (fst x))) inv, closed).
+
+(* ---- registrations as data: what the machine and the table theorems quantify over --- *)
+
+(* one call of Add / AddBg / AddHandler / AddTmp (or an internal registration): the
+   command as written by the caller, background?, AddTmp's wrapper?, internal table?,
+   AddTmp with a deadline > 0? *)
+Record hdecl := mkHD {
+  hd_cmd : str; hd_bg : bool; hd_tmp : bool; hd_int : bool; hd_deadline : bool }.
+
+Inductive top :=
+| TAdd (h : N)                 (* the registration call that creates handler h *)
+| TRemove (h : N)              (* Remove(cuid returned by the registration of h) *)
+| TRemoveRaw (cuid : str)      (* Remove(any string) *)
+| TClear (cmd : str)
+| TClearAll.
+
+Section TableOps.
+  Variable uid_of : N -> str.       (* the fresh-id oracle: handler -> its random uid *)
+  Variable decl : N -> hdecl.
+
+  Definition up_cmd (h : N) : str := go_upper (hd_cmd (decl h)).
+  Definition reg_key (h : N) : str := key_of (uid_of h) (hd_bg (decl h)).
+  Definition reg_cuid (h : N) : str := cuid_of (up_cmd h) (reg_key h).
+  Definition reg_val (h : N) : hval := mkH h (hd_tmp (decl h)).
+
+  Definition add_handler (t : table) (h : N) : table * str :=
+    register t (hd_int (decl h)) (hd_bg (decl h)) (hd_cmd (decl h)) (uid_of h) (reg_val h).
+
+  (* one operation under Caller.mu; the bool is Remove's result (true otherwise) *)
+  Definition apply_top (t : table) (o : top) : table * bool :=
+    match o with
+    | TAdd h => (fst (add_handler t h), true)
+    | TRemove h => remove t (reg_cuid h)
+    | TRemoveRaw c => remove t c
+    | TClear c => (clear t c, true)
+    | TClearAll => (clear_all t, true)
+    end.
+
+  Fixpoint run_tops (t : table) (ops : list top) : table :=
+    match ops with
+    | [] => t
+    | o :: r => run_tops (fst (apply_top t o)) r
+    end.
+
+  (* handler ids one exec call selects / one RunHandlers call runs, in order *)
+  Definition sel_ids (t : table) (command : str) (bg : bool) : list N :=
+    List.map (fun kv => hv_id (snd kv)) (select t command bg).
+  Definition phase_ids (t : table) (e : event) (k : nat) : list N :=
+    List.map (fun kv => hv_id (snd kv)) (phase_sel t e k).
+  Definition dispatch_ids (t : table) (e : event) : list N :=
+    List.map (fun x => hv_id (snd (fst x))) (dispatch t e).
+End TableOps.
